@@ -10,6 +10,7 @@ import (
 	"hash/fnv"
 	"os"
 	"path/filepath"
+	"runtime"
 	"sort"
 	"strconv"
 	"sync"
@@ -143,12 +144,19 @@ type Failure struct {
 	Signature string          `json:"signature,omitempty"`
 	Message   string          `json:"message"`
 	Scenario  json.RawMessage `json:"scenario"`
+	Procs     int             `json:"gomaxprocs,omitempty"` // GOMAXPROCS of the process that found it, when the driver pinned it (a replay restores it)
+}
+
+// procs is the GOMAXPROCS value pinned by the driver for this shard (0: not pinned).
+func procs() int {
+	n, _ := strconv.Atoi(os.Getenv("VERIF_GOMAXPROCS"))
+	return n
 }
 
 // Fail records a failing scenario.  rapid re-runs the minimal case last, so the
 // file left behind after shrinking is the minimal reproduction.
 func Fail(prop, test, signature string, sc any, msg string) {
-	f := Failure{Property: prop, Test: test, Signature: signature, Message: msg, Scenario: Canon(sc)}
+	f := Failure{Property: prop, Test: test, Signature: signature, Message: msg, Scenario: Canon(sc), Procs: procs()}
 	b, _ := json.MarshalIndent(f, "", " ")
 	os.WriteFile(filepath.Join(OutDir(), "fail.json"), b, 0o644)
 }
@@ -165,7 +173,7 @@ func Journal(prop, test string, sc any) {
 		}
 		journalFile = f
 	}
-	b, _ := json.Marshal(Failure{Property: prop, Test: test, Message: "process died while executing this scenario", Scenario: Canon(sc)})
+	b, _ := json.Marshal(Failure{Property: prop, Test: test, Message: "process died while executing this scenario", Scenario: Canon(sc), Procs: procs()})
 	journalFile.WriteAt(b, 0)
 	journalFile.Truncate(int64(len(b)))
 }
@@ -208,6 +216,11 @@ func Flush() {
 
 // Main is the TestMain body of every property package.
 func Main(m *testing.M) {
+	// some shards run on one or two processors: wake-up orders that sixteen processors never produce (one P runs the
+	// goroutine readied last first), all inside the same deterministic scripts
+	if n := procs(); n > 0 {
+		runtime.GOMAXPROCS(n)
+	}
 	code := m.Run()
 	Flush()
 	os.Exit(code)
@@ -225,6 +238,9 @@ func LoadReplay(into any) (bool, error) {
 	}
 	var f Failure
 	if err := json.Unmarshal(b, &f); err == nil && len(f.Scenario) > 0 {
+		if f.Procs > 0 {
+			runtime.GOMAXPROCS(f.Procs)
+		}
 		return true, json.Unmarshal(f.Scenario, into)
 	}
 	return true, json.Unmarshal(b, into)
